@@ -41,7 +41,7 @@ def run(chk):
         try:
             lrender.report_build_problems(chk, b, files)
             live = [(k, f, t["name"]) for k, f in files.items() if k not in b.rejected and k not in b.build_errors for t in f["templates"]]
-            den = {k: gen_tmpl.Denote(f, lrender.OBJS) for k, f in files.items()}
+            den = {k: gen_tmpl.Denote(f, lrender.OBJS, attr_space=False) for k, f in files.items()}
             # (a) histories
             hist = []
             for _ in range(600 if quick else 20000):
